@@ -73,9 +73,12 @@ func (c *Cursor) Last() (key []byte, value []byte) {
 	c.last()
 
 	// If this is an empty page (calling Delete may result in empty pages)
-	// we call prev to find the last page that is not empty
-	for len(c.stack) > 1 && c.stack[len(c.stack)-1].count() == 0 {
-		c.prev()
+	// we call prev to find the last page that is not empty. prev skips empty
+	// pages itself and returns a nil key if there is no element at all.
+	if len(c.stack) > 1 && c.stack[len(c.stack)-1].count() == 0 {
+		if k, _, _ := c.prev(); k == nil {
+			return nil, nil
+		}
 	}
 
 	if len(c.stack) == 0 {
@@ -125,6 +128,13 @@ func (c *Cursor) Seek(seek []byte) (key []byte, value []byte) {
 	// If we ended up after the last element of a page then move to the next one.
 	if ref := &c.stack[len(c.stack)-1]; ref.index >= ref.count() {
 		k, v, flags = c.next()
+		if k == nil {
+			// There is no such key: stay positioned after the last element
+			// (next may have stepped back from trailing empty pages onto it).
+			if ref := &c.stack[len(c.stack)-1]; ref.index < ref.count() {
+				ref.index = ref.count()
+			}
+		}
 	}
 
 	if k == nil {
@@ -228,6 +238,11 @@ func (c *Cursor) next() (key []byte, value []byte, flags uint32) {
 		// If we've hit the root page then stop and return. This will leave the
 		// cursor on the last element of the last page.
 		if i == -1 {
+			// If we walked onto trailing empty pages, go back to the last element
+			// so that the position stays on the last key.
+			if len(c.stack) > 1 && c.stack[len(c.stack)-1].count() == 0 {
+				c.prevElem()
+			}
 			return nil, nil, 0
 		}
 
@@ -249,34 +264,47 @@ func (c *Cursor) next() (key []byte, value []byte, flags uint32) {
 // prev moves the cursor to the previous item in the bucket and returns its key and value.
 // If the cursor is at the beginning of the bucket then a nil key and value are returned.
 func (c *Cursor) prev() (key []byte, value []byte, flags uint32) {
-	// Attempt to move back one element until we're successful.
-	// Move up the stack as we hit the beginning of each page in our stack.
-	for i := len(c.stack) - 1; i >= 0; i-- {
-		elem := &c.stack[i]
-		if elem.index > 0 {
-			elem.index--
-			break
-		}
+	if !c.prevElem() {
 		// If we've hit the beginning, we should stop moving the cursor,
 		// and stay at the first element, so that users can continue to
 		// iterate over the elements in reverse direction by calling `Next`.
 		// We should return nil in such case.
 		// Refer to https://github.com/etcd-io/bbolt/issues/733
-		if len(c.stack) == 1 {
-			c.first()
-			return nil, nil, 0
-		}
-		c.stack = c.stack[:i]
-	}
-
-	// If we've hit the end then return nil.
-	if len(c.stack) == 0 {
+		c.first()
 		return nil, nil, 0
 	}
-
-	// Move down the stack to find the last element of the last leaf under this branch.
-	c.last()
 	return c.keyValue()
+}
+
+// prevElem moves the cursor to the previous leaf element, skipping empty pages
+// (calling Delete may result in empty pages). It returns false, leaving the cursor
+// at the first leaf, if there is no previous element.
+func (c *Cursor) prevElem() bool {
+	for {
+		// Attempt to move back one element until we're successful.
+		// Move up the stack as we hit the beginning of each page in our stack.
+		var i int
+		for i = len(c.stack) - 1; i >= 0; i-- {
+			elem := &c.stack[i]
+			if elem.index > 0 {
+				elem.index--
+				break
+			}
+		}
+		if i == -1 {
+			return false
+		}
+
+		// Move down the stack to find the last element of the last leaf under this branch.
+		c.stack = c.stack[:i+1]
+		c.last()
+
+		// If this is an empty page then restart and keep moving back.
+		if c.stack[len(c.stack)-1].count() == 0 {
+			continue
+		}
+		return true
+	}
 }
 
 // search recursively performs a binary search against a given page/node until it finds a given key.
